@@ -1,5 +1,6 @@
 import BlobfinderModel.Model.Proto
 import BlobfinderModel.Model.Crop
+import BlobfinderModel.Model.Blocks
 /-
 Model driver for the correlation pipeline (crop, blocks, evaluation ...).
 One operation per input line, one result line per operation.
@@ -39,11 +40,36 @@ def opPySlice (ws : List String) : String :=
     | _, _, _ => "bad-op"
   | _ => "bad-op"
 
+def showSched (l : List (Int × Int × Int)) : String :=
+  " ".intercalate (l.map fun (s, e, z) => s!"{s}:{e}:{z}")
+
+def opSchedule (ws : List String) : String :=
+  match ws with
+  | [which, n, b] =>
+    match n.toInt?, b.toInt? with
+    | some n, some b =>
+      if b ≤ 0 ∨ n < 0 then "bad-op" else
+      if which = "fast" then showSched (schedule fastArith n b)
+      else if which = "full" then showSched (schedule fullArith n b)
+      else "bad-op"
+    | _, _ => "bad-op"
+  | _ => "bad-op"
+
+def opBufCount (ws : List String) : String :=
+  match ints? ws with
+  | some [c, n, itemsize, limit] =>
+    -- the real code raises ZeroDivisionError for a zero-sized crop
+    if (2 * c) ^ 2 * itemsize = 0 then "zero-division" else
+    toString (Gen.get_buf_count c n itemsize limit)
+  | _ => "bad-op"
+
 def step (line : String) : String :=
   match words line with
   | "crop_pixel" :: ws => opCropPixel ws
   | "crop_slice" :: ws => opCropSlice ws
   | "pyslice" :: ws => opPySlice ws
+  | "schedule" :: ws => opSchedule ws
+  | "bufcount" :: ws => opBufCount ws
   | _ => "bad-op"
 
 def main : IO Unit := run step
